@@ -70,7 +70,7 @@ type c10Cfg struct {
 func c10W(cfg c10Cfg, m *c10Msg, fragLen int) int {
 	w := 1 + 3 // LpPacket TL
 	if cfg.frag {
-		w += 1 + 1 + 8     // Sequence
+		w += 1 + 1 + 8       // Sequence
 		w += 2 * (1 + 1 + 2) // FragIndex, FragCount
 	}
 	if cfg.inFaceInd {
